@@ -270,7 +270,10 @@ def pair_job(job):
             (sd / fn).write_text(text)
 
         def write(nm, over):
-            c = dict(BASE)
+            over = dict(over)
+            # "_bare": a configuration file that sets nothing but its output file - every option at its default, whatever
+            # the configuration listed before it sets (round 7: defaults shared between the configurations of one invocation)
+            c = {} if over.pop("_bare", False) else dict(BASE)
             c.update(over)
             (d / nm).write_text("".join(f"{k} = {toml_value(v)}\n" for k, v in c.items()) + MASTER)
 
@@ -445,8 +448,10 @@ def main(argv):
         ("reuse_tolerance", {"color_format": "glyf_colr_1", "reuse_tolerance": -1.0}, {"color_format": "glyf_colr_1", "reuse_tolerance": 0.1}),
         ("bitmap_resolution", {"color_format": "cbdt", "bitmap_resolution": 32}, {"color_format": "cbdt", "bitmap_resolution": 48}),
     ]
+    pairs.append(("everything set, then nothing set", {"color_format": "glyf_colr_1", "upem": 2048, "ascender": 1900, "descender": -500, "linegap": 90, "width": 2600, "version_major": 3, "version_minor": 7,
+                                                          "keep_glyph_names": True, "clipbox_quantization": 64, "family": "Set Everything"}, {"_bare": True}))
     if tier == "quick":
-        pairs = [pairs[0], pairs[rng.randrange(1, 4)], pairs[4]]
+        pairs = [pairs[0], pairs[1 + report.seed % 3], pairs[4], pairs[5]]
     with ThreadPoolExecutor(max_workers=5) as ex:
         pres = list(ex.map(pair_job, pairs))
     for r in pres:
